@@ -128,6 +128,39 @@ func TestD4EnvBackedRepetitionDiverges(t *testing.T) {
 	}, []string{"x"})
 }
 
+// D4, further shapes of the same defect (reported by independent readers of the code), with the outcome C01/C12 demand
+func TestD4MoreShapes(t *testing.T) {
+	debug.SetMaxStack(32 << 20)
+	os.Setenv("VERIF_D4_E", "z")
+	defer os.Unsetenv("VERIF_D4_E")
+	for _, c := range []struct {
+		spec string
+		argv []string
+		ok   bool
+	}{
+		{"-e... X", []string{"x"}, true},
+		{"[-e]... X", []string{"x"}, true},
+		{"[-e...]", nil, true},
+		{"[-e...]", []string{"-e", "a", "-e", "b"}, true},
+		{"-e... X", []string{"-e", "a", "x"}, true},
+		{"-e... X", nil, false},
+		{"[ -- ]... X", []string{"x"}, true},
+		{"[ -- ]... X", []string{"--", "x"}, true},
+		{"([-e] | X)...", []string{"x", "x"}, true},
+	} {
+		ran, err, p := runApp(t, func(app *Cli) {
+			app.Spec = c.spec
+			app.Strings(StringsOpt{Name: "e", EnvVar: "VERIF_D4_E"})
+			app.Strings(StringsArg{Name: "X"})
+		}, c.argv)
+		if p != nil {
+			t.Errorf("spec %q argv %q: panic %v", c.spec, c.argv, p)
+		} else if ran != c.ok || (err == nil) != c.ok {
+			t.Errorf("spec %q argv %q: ran=%v err=%v, want accepted=%v", c.spec, c.argv, ran, err, c.ok)
+		}
+	}
+}
+
 func TestD4OptsEndRepetitionDiverges(t *testing.T) {
 	debug.SetMaxStack(32 << 20)
 	runApp(t, func(app *Cli) {
